@@ -12,7 +12,7 @@ from harness.trace import Run, result_str
 
 PROP = "C07"
 THEOREMS = ["Lbfgsb.C07.callback_state_eq_run_k", "Lbfgsb.C07.maxiter_only_in_guard",
-            "Lbfgsb.C07.snapshot_is_value"]
+            "Lbfgsb.C07.snapshot_is_value", "Lbfgsb.C07.callback_false_transparent"]
 MODULES = ["LbfgsbVerif.Props.C07"]
 
 FIELDS = ("x", "fun", "jac", "nfev", "njev", "nit", "sk", "yk")
